@@ -317,6 +317,12 @@ def contracts(tier):
                             'ddsmt.smtlib.get_bv_width',
                             'ddsmt.smtlib.get_indices'],
                            make_run(name, b), setup=setup, assumptions=A))
+    cs.append(Contract('C16/collect_information',
+                       ['ddsmt.smtlib.collect_information'], run_tables,
+                       setup=setup_tables, assumptions=A + [
+                           'get_sort on the bound term of a let answered by '
+                           'its contract; the loop over sub-terms verified '
+                           'for the binder under test']))
     cs.append(Contract('C16/get_default_constants',
                        ['ddsmt.smtlib.get_default_constants'],
                        run_default_constants, setup=setup, assumptions=A))
@@ -334,3 +340,100 @@ def native_checks(tier):
                      'sort')
     nc.python = 'python3-vt'
     return [nc]
+
+
+# ---------------------------------------------------------------------------
+# the symbol tables: collect_information maps every declared / defined /
+# bound name to its sort (premise of the schemas above)
+
+from pyvc.interp import LoopSpec  # noqa: E402
+
+CI = 'ddsmt.smtlib.collect_information'
+
+
+def setup_tables(eng):
+    setup(eng)
+    eng._binder = None
+    # nodes.dfs through its contract (C12): it yields every sub-term of the
+    # input, in particular the command and the binder under test; the other
+    # sub-terms bind nothing (every symbol is bound once)
+    eng.overrides['ddsmt.nodes.dfs'] = lambda e, exprs, max_depth=None: \
+        list(exprs) + ([eng._binder] if eng._binder is not None else [])
+
+
+def run_tables(eng, p):  # noqa: C901
+    sm = eng.load_module('ddsmt.smtlib')
+    kind = ['declare-const', 'declare-fun-0', 'declare-fun-2', 'define-fun',
+            'let', 'forall', 'exists'][p.choose(7, 'kind')]
+    name = mk.sstr(p, 'name')
+    # a symbol: not a numeral, not one of the command names
+    p.assume(z3.Length(name.z) > 0)
+    p.assume(z3.Not(z3.InRe(name.z, nm.CANON)))
+    x = nm.mk_leaf(eng, name)
+    S_ = nm.lazy_node(eng, p, 'declared_sort')
+    A_ = nm.lazy_node(eng, p, 'param_sort')
+    body = nm.lazy_node(eng, p, 'body')
+    eng._binder = None
+    want = S_
+    sort_answer = {}
+
+    def get_sort(e, n):
+        # contract: unknown, or the sort of n (an opaque sort term)
+        unknown = p.decide(p.fresh_bool('sort_unknown'))
+        sort_answer['v'] = None if unknown else nm.lazy_node(e, p,
+                                                            'sort_of_term')
+        return sort_answer['v']
+
+    eng.overrides['ddsmt.smtlib.get_sort'] = get_sort
+    if kind == 'declare-const':
+        cmd = nm.mk_node(eng, 'declare-const', x, S_)
+    elif kind == 'declare-fun-0':
+        cmd = nm.mk_node(eng, 'declare-fun', x, nm.mk_node(eng), S_)
+    elif kind == 'declare-fun-2':
+        cmd = nm.mk_node(eng, 'declare-fun', x, nm.mk_node(eng, A_, A_), S_)
+    elif kind == 'define-fun':
+        cmd = nm.mk_node(eng, 'define-fun', x,
+                         nm.mk_node(eng, nm.mk_node(eng, 'a', A_)), S_, body)
+    else:
+        if kind == 'let':
+            term = nm.lazy_node(eng, p, 'bound_term')
+            binder = nm.mk_node(eng, 'let',
+                                nm.mk_node(eng, nm.mk_node(eng, x, term)),
+                                body)
+        else:
+            binder = nm.mk_node(eng, kind,
+                                nm.mk_node(eng, nm.mk_node(eng, x, S_)), body)
+        cmd = nm.mk_node(eng, 'assert', binder)
+        eng._binder = binder
+    o = outcome(eng, sm.g['collect_information'], [[cmd]])
+    N = f'C16/collect_information[{kind}]'
+    p.oblige(f'{N}/raises-nothing', o.kind == 'return', info=repr(o))
+    if o.kind != 'return':
+        return
+    look = sm.g['__sort_lookup']
+    k = eng.dict_find(look, name)
+    from pyvc.interp import _MISSING
+    p.oblige(f'{N}/name-is-registered', k is not _MISSING,
+             info={'signature': f'{kind}: bound name missing from the sort '
+                   'table'})
+    if k is _MISSING:
+        return
+    got = look.get_stored(k)
+    if kind == 'let':
+        p.oblige(f'{N}/sort-is-the-inferred-sort-of-the-bound-term',
+                 got is sort_answer.get('v'))
+    else:
+        p.oblige(f'{N}/sort-is-the-declared-sort', got is want,
+                 info={'signature': f'{kind}: the table holds another node '
+                       'than the declared sort'})
+    consts = sm.g['__constants']
+    is_const = eng.dict_find(consts, name) is not _MISSING
+    if kind in ('declare-const', 'declare-fun-0'):
+        p.oblige(f'{N}/nullary-symbol-is-a-constant', is_const)
+    if kind == 'declare-fun-2':
+        p.oblige(f'{N}/function-is-not-a-constant', not is_const)
+    if kind in ('declare-const', 'declare-fun-0', 'declare-fun-2',
+                'define-fun', 'let', 'forall', 'exists'):
+        ids = sm.g['__definition_node_ids']
+        p.oblige(f'{N}/binding-occurrence-is-marked',
+                 eng.truth(eng.contains(ids, x.attrs['id'])))
